@@ -75,6 +75,7 @@ def main(argv=None):
     known_hit = []
     inlined = set()
     used_assumptions = set()
+    canary_groups = {}
     assumed = set()
     funcs_ok = []
     for r in results:
@@ -94,10 +95,10 @@ def main(argv=None):
         for o in r['obligations']:
             solver_time += o['time']
             if o['kind'] == 'canary':
-                n_canary += 1
-                if o['status'] == 'unsat':
-                    broken.append('vacuous contract: canary %s is '
-                                  'unreachable' % o['name'])
+                # vacuity guard: of the canaries of one program point (several
+                # paths reach it) at least one must be satisfiable
+                grp = re.sub(r'#\d+$', '', o['name'])
+                canary_groups.setdefault(grp, []).append(o['status'])
                 continue
             nany += 1
             want = getattr(prop, 'SELECT', None)
@@ -125,6 +126,11 @@ def main(argv=None):
             broken.append('%s: zero obligations generated' % r['function'])
         funcs_ok.append(r['function'])
 
+    for grp, sts in canary_groups.items():
+        n_canary += 1
+        if all(x == 'unsat' for x in sts):
+            broken.append('vacuous contract: canary %s is unreachable on '
+                          'every path' % grp)
     # lemmas decided by evaluating the real tables / code (finite)
     lemma_results = []
     if hasattr(prop, 'lemmas'):
